@@ -307,5 +307,163 @@ theorem simRowT_eq (vecs : List (List Q)) (minSim : Q) (maxN : Option Nat) (i nn
         simp only [hk', if_false]
         exact clamp_pairs vecs minSim (some k) i hpos _ _ hlen (by simpa [simRowTrunc, hk] using hrow)
 
+/-! ### the blocks -/
+
+theorem blocks_eq_fanout {β} (f : Nat → β) (n c : Nat) : ∀ fuel start,
+    (pyRangeStep n c fuel start).flatMap (fun s => (List.range' s (min (s + c) n - s)).map f) = LK.Batch.fanout f n c fuel start := by
+  intro fuel
+  induction fuel with
+  | zero => intro start; simp [pyRangeStep, LK.Batch.fanout]
+  | succ fuel ih =>
+    intro start
+    simp only [pyRangeStep, LK.Batch.fanout]
+    by_cases hs : start < n
+    · simp only [hs, if_true, List.flatMap_cons, ih]
+      have : min (start + c) n - start = min c (n - start) := by omega
+      rw [this]
+    · simp [hs]
+
+theorem flatten_map_map {σ α β} (S : List σ) (B : σ → List α) (h : α → β) :
+    (S.map (fun s => (B s).map h)).flatten = (S.flatMap B).map h := by
+  induction S with
+  | nil => rfl
+  | cons s S ih => simp only [List.map_cons, List.flatten_cons, List.flatMap_cons, List.map_append, ih]
+
+theorem flatten_map_flatten {σ α β} (S : List σ) (B : σ → List α) (p : α → List β) :
+    (S.map (fun s => ((B s).map p).flatten)).flatten = ((S.flatMap B).map p).flatten := by
+  induction S with
+  | nil => rfl
+  | cons s S ih => simp only [List.map_cons, List.flatten_cons, List.flatMap_cons, List.map_append, List.flatten_append, ih]
+
+/-- the CSR triple of a list of rows: row pointers (cumulative sum of the lengths after a leading 0), columns and values end to end -/
+def csrOfRows (rows : List (List Nat × List Q)) : List Nat × List Nat × List Q :=
+  (cumsum (0 :: rows.map (fun r => r.1.length)), (rows.map (fun r => r.1)).flatten, (rows.map (fun r => r.2)).flatten)
+
+/-- **C09 (the block size is irrelevant, of the code as written):** the CSR triple `_sim_blocks` assembles from blocks of
+    `block_size` rows is the triple of the rows `_sim_row` computes for items `0 … n − 1` in order, for every positive block size -/
+theorem simBlocksT_eq (matrix : List (List Q)) (minSim : Q) (maxN : Option Nat) (b : Nat) (hb : 0 < b) (nnz : Nat → Nat) :
+    simBlocksT matrix minSim maxN b nnz
+      = csrOfRows ((List.range matrix.length).map (fun i => simRowT i matrix (matrix.getD i []) (nnz i) minSim maxN)) := by
+  have hfan := blocks_eq_fanout (fun i : Nat => i) matrix.length b matrix.length 0
+  rw [LK.Batch.fanout_eq_map _ _ _ hb matrix.length 0 (by have := Nat.le_mul_of_pos_right matrix.length hb; omega)] at hfan
+  simp only [Nat.sub_zero, ← List.range_eq_range', List.map_id'] at hfan
+  unfold simBlocksT simBlockT csrOfRows pyRange
+  simp only [List.map_map, Function.comp_def, List.flatten_append, List.flatten_cons, List.flatten_nil, List.append_nil, List.singleton_append]
+  rw [flatten_map_map, flatten_map_flatten, flatten_map_flatten, hfan]
+
+theorem simBlocksT_blocksize_indep (matrix : List (List Q)) (minSim : Q) (maxN : Option Nat) (b₁ b₂ : Nat) (h1 : 0 < b₁) (h2 : 0 < b₂)
+    (nnz : Nat → Nat) : simBlocksT matrix minSim maxN b₁ nnz = simBlocksT matrix minSim maxN b₂ nnz := by
+  rw [simBlocksT_eq _ _ _ _ h1, simBlocksT_eq _ _ _ _ h2]
+
+/-- …and those rows, as (column, similarity) pairs, are the model's `simBlocks` -/
+theorem rows_eq_simBlocks (vecs : List (List Q)) (minSim : Q) (maxN : Option Nat) (b : Nat) (hb : 0 < b) (nnz : Nat → Nat)
+    (hpos : 0 < minSim)
+    (hle : ∀ i j, i < vecs.length → j < vecs.length → dot (vecs.getD i []) (vecs.getD j []) ≤ 1)
+    (hnnz : ∀ i, nnz i = 0 → ∀ x ∈ vecs.getD i [], x = 0) :
+    (List.range vecs.length).map (fun i => (simRowT i vecs (vecs.getD i []) (nnz i) minSim maxN).1.zip
+        (simRowT i vecs (vecs.getD i []) (nnz i) minSim maxN).2) = simBlocks vecs minSim maxN b := by
+  rw [simBlocks_eq_rows vecs minSim maxN b hb]
+  apply List.map_congr_left
+  intro i hi
+  exact simRowT_eq vecs minSim maxN i (nnz i) hpos (fun j hj => hle i j (List.mem_range.mp hi) hj) (hnnz i)
+
+/-! ### reading the CSR triple back -/
+
+theorem cumsumFrom_getD (a : Nat) (xs : List Nat) (k : Nat) (hk : k < xs.length) :
+    (LK.ArrowOps.cumsumFrom a xs).getD k 0 = a + (LK.ArrowOps.cumsumFrom 0 xs).getD k 0 := by
+  induction xs generalizing a k with
+  | nil => simp at hk
+  | cons x xs ih =>
+    cases k with
+    | zero => simp [LK.ArrowOps.cumsumFrom]
+    | succ k =>
+      have hk' : k < xs.length := by simpa using hk
+      simp only [LK.ArrowOps.cumsumFrom, List.getD_cons_succ, Nat.zero_add]
+      rw [ih (a + x) k hk', ih x k hk']; omega
+
+/-- row pointer `u` (`0 ≤ u ≤ number of rows`) -/
+def ptrAt {α} (L : List (List α)) (u : Nat) : Nat := (cumsum (0 :: L.map List.length)).getD u 0
+
+theorem ptrAt_zero {α} (L : List (List α)) : ptrAt L 0 = 0 := by simp [ptrAt, cumsum, LK.ArrowOps.cumsum, LK.ArrowOps.cumsumFrom]
+
+theorem ptrAt_succ_cons {α} (l : List α) (L : List (List α)) (u : Nat) (hu : u ≤ L.length) :
+    ptrAt (l :: L) (u + 1) = l.length + ptrAt L u := by
+  simp only [ptrAt, cumsum, LK.ArrowOps.cumsum, LK.ArrowOps.cumsumFrom, List.map_cons, Nat.zero_add, List.getD_cons_succ, Nat.add_zero]
+  cases u with
+  | zero => simp [LK.ArrowOps.cumsumFrom]
+  | succ u =>
+    simp only [LK.ArrowOps.cumsumFrom, List.getD_cons_succ, Nat.zero_add]
+    exact cumsumFrom_getD l.length _ u (by rw [List.length_map]; omega)
+
+/-- **reading a row back:** the slice `[ptr u, ptr (u+1))` of the concatenation is row `u` -/
+theorem csr_row {α} (L : List (List α)) (u : Nat) (hu : u < L.length) :
+    (L.flatten.drop (ptrAt L u)).take (ptrAt L (u + 1) - ptrAt L u) = L[u] := by
+  induction L generalizing u with
+  | nil => simp at hu
+  | cons l L ih =>
+    cases u with
+    | zero =>
+      rw [ptrAt_zero, ptrAt_succ_cons l L 0 (Nat.zero_le _), ptrAt_zero]
+      simp
+    | succ u =>
+      have hu' : u < L.length := by simpa using hu
+      rw [ptrAt_succ_cons l L u (Nat.le_of_lt hu'), ptrAt_succ_cons l L (u + 1) hu']
+      have : l.length + ptrAt L (u + 1) - (l.length + ptrAt L u) = ptrAt L (u + 1) - ptrAt L u := by omega
+      rw [this, List.flatten_cons, List.drop_append, List.drop_of_length_le (by omega)]
+      simp only [List.nil_append, Nat.add_sub_cancel_left, List.getElem_cons_succ]
+      exact ih u hu'
+
+theorem simRowT_lengths (item : Nat) (matrix : List (List Q)) (row : List Q) (nnz : Nat) (minSim : Q) (maxN : Option Nat) :
+    (simRowT item matrix row nnz minSim maxN).1.length = (simRowT item matrix row nnz minSim maxN).2.length := by
+  have hlen : (nonzero (geScalar (setAt (mv matrix row) item 0) minSim)).length
+      = (indexMask (setAt (mv matrix row) item 0) (geScalar (setAt (mv matrix row) item 0) minSim)).length := by
+    unfold nonzero
+    apply indexMask_length_congr
+    simp [geScalar]
+  unfold simRowT
+  split
+  · rfl
+  · cases maxN with
+    | none => simp [clamp, hlen]
+    | some k =>
+      simp only
+      split
+      · simp [clamp, argsort, topkIdx]
+      · simp [clamp, hlen]
+
+/-- **C09 (what `_sim_blocks` stores for item `u` is the model's row `u`):** the slice of (column, similarity) pairs between
+    row pointers `u` and `u + 1` of the assembled CSR triple is `simRowTrunc … u`, whatever the block size -/
+theorem simBlocksT_row (vecs : List (List Q)) (minSim : Q) (maxN : Option Nat) (b : Nat) (hb : 0 < b) (nnz : Nat → Nat)
+    (hpos : 0 < minSim)
+    (hle : ∀ i j, i < vecs.length → j < vecs.length → dot (vecs.getD i []) (vecs.getD j []) ≤ 1)
+    (hnnz : ∀ i, nnz i = 0 → ∀ x ∈ vecs.getD i [], x = 0) (u : Nat) (hu : u < vecs.length) :
+    let csr := simBlocksT vecs minSim maxN b nnz
+    ((csr.2.1.drop (csr.1.getD u 0)).take (csr.1.getD (u + 1) 0 - csr.1.getD u 0)).zip
+      ((csr.2.2.drop (csr.1.getD u 0)).take (csr.1.getD (u + 1) 0 - csr.1.getD u 0)) = simRowTrunc vecs minSim maxN u := by
+  intro csr
+  have hcsr : csr = csrOfRows ((List.range vecs.length).map (fun i => simRowT i vecs (vecs.getD i []) (nnz i) minSim maxN)) :=
+    simBlocksT_eq vecs minSim maxN b hb nnz
+  rw [hcsr]
+  simp only [csrOfRows]
+  have hL : (List.map (fun r : List Nat × List Q => r.1.length) ((List.range vecs.length).map (fun i => simRowT i vecs (vecs.getD i []) (nnz i) minSim maxN)))
+      = (((List.range vecs.length).map (fun i => simRowT i vecs (vecs.getD i []) (nnz i) minSim maxN)).map (fun r => r.1)).map List.length := by
+    simp [List.map_map, Function.comp_def]
+  have hV : (List.map (fun r : List Nat × List Q => r.1.length) ((List.range vecs.length).map (fun i => simRowT i vecs (vecs.getD i []) (nnz i) minSim maxN)))
+      = (((List.range vecs.length).map (fun i => simRowT i vecs (vecs.getD i []) (nnz i) minSim maxN)).map (fun r => r.2)).map List.length := by
+    simp only [List.map_map, Function.comp_def]
+    apply List.map_congr_left
+    intro i _
+    exact simRowT_lengths ..
+  have hc := csr_row (((List.range vecs.length).map (fun i => simRowT i vecs (vecs.getD i []) (nnz i) minSim maxN)).map (fun r => r.1)) u (by simpa using hu)
+  have hv := csr_row (((List.range vecs.length).map (fun i => simRowT i vecs (vecs.getD i []) (nnz i) minSim maxN)).map (fun r => r.2)) u (by simpa using hu)
+  unfold ptrAt at hc hv
+  rw [← hL] at hc
+  rw [← hV] at hv
+  rw [hc, hv]
+  simp only [List.getElem_map, List.getElem_range]
+  exact simRowT_eq vecs minSim maxN u (nnz u) hpos (fun j hj => hle u j hu hj) (hnnz u)
+
 #print axioms simRowT_eq
+#print axioms simBlocksT_eq
+#print axioms simBlocksT_row
 end LK.TorchOps
